@@ -39,6 +39,10 @@ pub fn check(tier: Tier) -> Check {
     // identifier spaces made to collide: the next PACKET identifier equals the SUBSCRIPTION identifier
     // of an established subscription (a late SUBACK / cancelled subscribe must not touch that one)
     parts.push(Part::new("C15/streams", json!({"depth": tier.pick(4, 6), "collide": true}), 0, tier.pick(30, 400)));
+    // a rolling population of subscriptions: streams dropped, subscribes abandoned before their SUBACK,
+    // new subscriptions made - the survivors and the newcomers get every message
+    parts.push(Part::new("C15/rolling", json!({"rounds": tier.pick(10, 30)}), 0, 120));
+    parts.push(Part::new("C15/rolling", json!({"rounds": tier.pick(10, 30), "abandon": true}), 0, 120));
     // value flavour (DESIGN 4): the same exploration with requests / inbound messages of unusual content
     parts.push(Part::new("C15/cancel", json!({"depth": tier.pick(4, 5), "r": 1, "vals": 1}), 1, tier.pick(30, 500)));
     parts.push(Part::new("C15/streams", json!({"depth": tier.pick(4, 5), "vals": 1}), 0, tier.pick(30, 400)));
@@ -134,6 +138,9 @@ fn streams(name: String, params: Value) -> Scenario {
 pub fn scenario(name: &str, params: &Value) -> Scenario {
     if name == "C15/streams" {
         return streams(name.to_string(), params.clone());
+    }
+    if name == "C15/rolling" {
+        return super::c07::rolling("C15", name.to_string(), params.clone());
     }
     let depth = params["depth"].as_u64().unwrap_or(4) as usize;
     let r = params["r"].as_u64().unwrap_or(1) as u16;
